@@ -1,6 +1,7 @@
 import WindVerif.Proofs.TmpPool
 import WindVerif.Proofs.FilePoolFail
 import WindVerif.Proofs.TmpPoolCtx
+import WindVerif.Proofs.TmpPoolRefuse
 /-!
 # C20 — TmpPool and FilePool leave nothing behind
 
@@ -273,5 +274,153 @@ example : (runC true Pool.new [.create 0, .create 0]).refs.length = 1 ∧
 /-- D21 for two files before and two after the enter: all four exist before `__exit__` -/
 example : (runC true Pool.new (List.replicate 2 (.create 0) ++ [.enter] ++ List.replicate 2 (.create 0))).fs = [0, 1, 2, 3] := by
   decide
+
+end WindVerif.C20
+
+/-!
+### TmpPool: removals that the operating system refuses or that are interrupted
+
+Model `Model/TmpPoolRefuse.lean`, proofs `Proofs/TmpPoolRefuse.lean`.  The pool (`Pool`, unchanged) is carried beside a set of
+*protected* paths (`PoolR.prot`): `os.remove` of an existing protected path raises (`PermissionError`; an interrupt is the same
+transition).  `removeR` / `flushR` return the state after the call and how it ended (`Res`): a refused `remove` leaves before the
+list is touched, a refused `flush` leaves the loop before the list is cleared.  Histories `ROp` (`applyR`, `runR`): the calls
+by any process, files deleted by somebody else (`unlink`, not subject to the protection), `protect p` / `unprotect p` /
+`unprotectAll`.  `InvR` is `Inv` of the pool.  `removeUnlistFirst` is a seeded variant (unlist first, then unlink).
+-/
+namespace WindVerif.C20
+open WindVerif.TmpPool WindVerif.TmpPoolRefuse
+
+/-- `remove(p)` refused: nothing changed; the file is protected and still exists -/
+theorem refused_remove_keeps (s : PoolR) (pid : Nat) (p : Path) (h : (removeR s pid p).2 = .refused) :
+    (removeR s pid p).1 = s ∧ p ∈ s.prot ∧ p ∈ s.pool.fs := by
+  first | exact WindVerif.TmpPoolRefuse.refused_remove_keeps .. | (apply WindVerif.TmpPoolRefuse.refused_remove_keeps <;> assumption)
+
+/-- … and in a consistent state it is still listed, so a later `flush()` / `__exit__` will remove it -/
+theorem refused_remove_still_listed {s : PoolR} (h : InvR s) (pid : Nat) (p : Path)
+    (hr : (removeR s pid p).2 = .refused) :
+    p ∈ (removeR s pid p).1.pool.fs ∧ ∃ l, (removeR s pid p).1.pool.listOf 0 = some l ∧ p ∈ l := by
+  first | exact WindVerif.TmpPoolRefuse.refused_remove_still_listed .. | (apply WindVerif.TmpPoolRefuse.refused_remove_still_listed <;> assumption)
+
+/-- `remove(p)` is refused exactly when a process of the pool asks for a protected existing file -/
+theorem removeR_refused_iff (s : PoolR) (pid : Nat) (p : Path) :
+    (removeR s pid p).2 = .refused ↔ s.pool.listOf pid ≠ none ∧ p ∈ s.prot ∧ p ∈ s.pool.fs := by
+  first | exact WindVerif.TmpPoolRefuse.removeR_refused_iff .. | (apply WindVerif.TmpPoolRefuse.removeR_refused_iff <;> assumption)
+
+/-- when `os.remove` is not refused, `removeR` is `Pool.remove` of the old model (with what `applyOp` does on `ValueError`) -/
+theorem removeR_not_refused (s : PoolR) (pid : Nat) (p : Path) (h : ¬ (p ∈ s.prot ∧ p ∈ s.pool.fs)) :
+    removeR s pid p =
+      match s.pool.remove pid p with
+      | .ok s' => ({ s with pool := s' }, .ok)
+      | .error .valueError => ({ s with pool := s.pool.unlink p }, .valueError)
+      | .error .badProcess => (s, .badProcess) := by
+  first | exact WindVerif.TmpPoolRefuse.removeR_not_refused .. | (apply WindVerif.TmpPoolRefuse.removeR_not_refused <;> assumption)
+
+/-- when no listed file is protected and existing, `flushR` is `Pool.flush` of the old model -/
+theorem flushR_not_refused (s : PoolR) (pid : Nat)
+    (h : ∀ l, s.pool.listOf pid = some l → ∀ x ∈ l, ¬ (x ∈ s.prot ∧ x ∈ s.pool.fs)) :
+    flushR s pid =
+      match s.pool.flush pid with
+      | .ok s' => ({ s with pool := s' }, .ok)
+      | .error _ => (s, .badProcess) := by
+  first | exact WindVerif.TmpPoolRefuse.flushR_not_refused .. | (apply WindVerif.TmpPoolRefuse.flushR_not_refused <;> assumption)
+
+theorem invR_new : InvR PoolR.new := by
+  first | exact WindVerif.TmpPoolRefuse.invR_new .. | (apply WindVerif.TmpPoolRefuse.invR_new <;> assumption)
+
+/-- every operation — refused ones included — keeps the invariant -/
+theorem invR_step (s : PoolR) (op : ROp) (h : InvR s) : InvR (applyR s op) := by
+  first | exact WindVerif.TmpPoolRefuse.invR_step .. | (apply WindVerif.TmpPoolRefuse.invR_step <;> assumption)
+
+theorem invR_run (ops : List ROp) : InvR (runR ops) := by
+  first | exact WindVerif.TmpPoolRefuse.invR_run .. | (apply WindVerif.TmpPoolRefuse.invR_run <;> assumption)
+
+/-- after any history every process sees one listing and every existing file of the pool is in it: nothing can be forgotten -/
+theorem existing_listed_R (ops : List ROp) :
+    ∃ l, (runR ops).pool.listOf 0 = some l ∧
+      (∀ pid, pid < (runR ops).pool.refs.length → (runR ops).pool.listOf pid = some l) ∧
+      ∀ p ∈ (runR ops).pool.fs, p ∈ l := by
+  first | exact WindVerif.TmpPoolRefuse.existing_listed_R .. | (apply WindVerif.TmpPoolRefuse.existing_listed_R <;> assumption)
+
+/-- a consistent state in which no existing file is protected: `flush()` by any process succeeds and leaves nothing -/
+theorem flushR_nothing_left {s : PoolR} (h : InvR s) {pid : Nat} (hp : pid < s.pool.refs.length)
+    (hprot : ∀ p ∈ s.pool.fs, p ∉ s.prot) :
+    ∃ s', flushR s pid = (s', .ok) ∧ s'.pool.fs = [] ∧ s'.pool.listOf 0 = some [] ∧ s'.prot = s.prot := by
+  first | exact WindVerif.TmpPoolRefuse.flushR_nothing_left .. | (apply WindVerif.TmpPoolRefuse.flushR_nothing_left <;> assumption)
+
+/-- after any history (refused removals, refused flushes, files deleted by others, children): once the directory allows
+removals again, leaving the context (`flush()` by the owner) succeeds, no file of the pool exists and nothing is listed -/
+theorem nothing_left_after_unprotect (ops : List ROp) :
+    ∃ s', flushR (unprotectAll (runR ops)) 0 = (s', .ok) ∧ s'.pool.fs = [] ∧ s'.pool.listOf 0 = some [] := by
+  first | exact WindVerif.TmpPoolRefuse.nothing_left_after_unprotect .. | (apply WindVerif.TmpPoolRefuse.nothing_left_after_unprotect <;> assumption)
+
+theorem nothing_left_after_unprotect_any (ops : List ROp) (pid : Nat) (hp : pid < (runR ops).pool.refs.length) :
+    ∃ s', flushR (unprotectAll (runR ops)) pid = (s', .ok) ∧ s'.pool.fs = [] ∧ s'.pool.listOf 0 = some [] := by
+  first | exact WindVerif.TmpPoolRefuse.nothing_left_after_unprotect_any .. | (apply WindVerif.TmpPoolRefuse.nothing_left_after_unprotect_any <;> assumption)
+
+/-- a refused `flush()` leaves every process's listing exactly as it was (and the protected set); on disk only listed files
+before the refused one are gone, none of them protected-and-existing; the refused file is protected and still exists -/
+theorem flush_refused_keeps_list (s : PoolR) (pid : Nat) (h : (flushR s pid).2 = .refused) :
+    (flushR s pid).1.pool.heap = s.pool.heap ∧ (flushR s pid).1.pool.refs = s.pool.refs ∧
+    (flushR s pid).1.pool.fresh = s.pool.fresh ∧ (flushR s pid).1.prot = s.prot ∧
+    (∀ pid', (flushR s pid).1.pool.listOf pid' = s.pool.listOf pid') ∧
+    ∃ pre q post, s.pool.listOf pid = some (pre ++ q :: post) ∧ q ∈ s.prot ∧ q ∈ s.pool.fs ∧
+      q ∈ (flushR s pid).1.pool.fs ∧ (∀ x ∈ pre, ¬ (x ∈ s.prot ∧ x ∈ s.pool.fs)) ∧
+      (flushR s pid).1.pool.fs = s.pool.fs.filter (fun x => !pre.contains x) := by
+  first | exact WindVerif.TmpPoolRefuse.flush_refused_keeps_list .. | (apply WindVerif.TmpPoolRefuse.flush_refused_keeps_list <;> assumption)
+
+/-- `flush()` that ended normally did what `Pool.flush` does -/
+theorem flushR_ok (s : PoolR) (pid : Nat) (h : (flushR s pid).2 = .ok) :
+    ∃ s', s.pool.flush pid = .ok s' ∧ (flushR s pid).1 = { s with pool := s' } := by
+  first | exact WindVerif.TmpPoolRefuse.flushR_ok .. | (apply WindVerif.TmpPoolRefuse.flushR_ok <;> assumption)
+
+/-- the seeded variant in general: in a consistent state, `removeUnlistFirst` of a protected existing file is refused, the file
+still exists and no process lists it any more -/
+theorem unlist_first_refused_forgets {s : PoolR} (h : InvR s) {pid : Nat} (hp : pid < s.pool.refs.length) (p : Path)
+    (hprot : p ∈ s.prot) (hfs : p ∈ s.pool.fs) :
+    (removeUnlistFirst s pid p).2 = .refused ∧ p ∈ (removeUnlistFirst s pid p).1.pool.fs ∧
+      ∀ pid' l', (removeUnlistFirst s pid p).1.pool.listOf pid' = some l' → p ∉ l' := by
+  first | exact WindVerif.TmpPoolRefuse.unlist_first_refused_forgets .. | (apply WindVerif.TmpPoolRefuse.unlist_first_refused_forgets <;> assumption)
+
+/-- the witness.  A file is created and its directory becomes read-only.  `removeUnlistFirst` is refused, the file exists and
+is not listed; when removals are allowed again, leaving the context leaves the file behind.  With `removeR` (the code) the same
+history ends with an empty disk -/
+theorem unlist_first_forgets :
+    let s1 := runR [.create 0, .protect 0]
+    let s2 := removeUnlistFirst s1 0 0
+    s2.2 = .refused ∧ s2.1.pool.fs = [0] ∧ s2.1.pool.listOf 0 = some [] ∧
+    (flushR (unprotectAll s2.1) 0).2 = .ok ∧ (flushR (unprotectAll s2.1) 0).1.pool.fs = [0] ∧
+    let t2 := removeR s1 0 0
+    t2.2 = .refused ∧ t2.1.pool.fs = [0] ∧ t2.1.pool.listOf 0 = some [0] ∧
+    (flushR (unprotectAll t2.1) 0).2 = .ok ∧ (flushR (unprotectAll t2.1) 0).1.pool.fs = [] := by
+  first | exact WindVerif.TmpPoolRefuse.unlist_first_forgets .. | (apply WindVerif.TmpPoolRefuse.unlist_first_forgets <;> assumption)
+
+/-- non-vacuity.  Three files, the second protected: `remove` of it is refused (hypothesis of `refused_remove_keeps`), of another
+one is not (hypothesis of `removeR_not_refused`) -/
+example : (removeR (runR [.create 0, .create 0, .create 0, .protect 1]) 0 1).2 = .refused ∧
+    ¬ ((0 : Path) ∈ (runR [.create 0, .create 0, .create 0, .protect 1]).prot ∧
+       (0 : Path) ∈ (runR [.create 0, .create 0, .create 0, .protect 1]).pool.fs) ∧
+    (removeR (runR [.create 0, .create 0, .create 0, .protect 1]) 0 0).2 = .ok := by decide
+/-- a refused `flush()` (hypothesis of `flush_refused_keeps_list`): file 0 is gone, 1 and 2 stay, all three stay listed -/
+example : (flushR (runR [.create 0, .create 0, .create 0, .protect 1]) 0).2 = .refused ∧
+    (flushR (runR [.create 0, .create 0, .create 0, .protect 1]) 0).1.pool.fs = [1, 2] ∧
+    (flushR (runR [.create 0, .create 0, .create 0, .protect 1]) 0).1.pool.listOf 0 = some [0, 1, 2] := by decide
+/-- a history with a child, a refused flush by the child, a refused remove, a file deleted by somebody else although it is
+protected, a protected file that no longer exists; its state, and the state after `unprotectAll` + the owner's flush -/
+example : (runR [.create 0, .fork 0, .create 1, .create 0, .protect 1, .protect 2, .flushR 1, .removeR 0 1, .unlink 2,
+      .create 1, .removeR 1 2]).pool.fs = [1, 3] ∧
+    (runR [.create 0, .fork 0, .create 1, .create 0, .protect 1, .protect 2, .flushR 1, .removeR 0 1, .unlink 2,
+      .create 1, .removeR 1 2]).pool.listOf 0 = some [0, 1, 3] ∧
+    (runR [.create 0, .fork 0, .create 1, .create 0, .protect 1, .protect 2, .flushR 1, .removeR 0 1, .unlink 2,
+      .create 1, .removeR 1 2]).prot = [2, 1] ∧
+    (flushR (unprotectAll (runR [.create 0, .fork 0, .create 1, .create 0, .protect 1, .protect 2, .flushR 1, .removeR 0 1,
+      .unlink 2, .create 1, .removeR 1 2])) 0).1.pool.fs = [] := by decide
+/-- the hypotheses of `flushR_nothing_left` / `flushR_not_refused`: a protected path that does not exist refuses nothing -/
+example : (∀ p ∈ (runR [.create 0, .create 0, .protect 0, .unlink 0]).pool.fs,
+      p ∉ (runR [.create 0, .create 0, .protect 0, .unlink 0]).prot) ∧
+    1 < (runR [.create 0, .fork 0]).pool.refs.length ∧
+    (flushR (runR [.create 0, .create 0, .protect 0, .unlink 0]) 0).2 = .ok := by decide
+/-- the hypotheses of `unlist_first_refused_forgets` -/
+example : (0 : Path) ∈ (runR [.create 0, .protect 0]).prot ∧ (0 : Path) ∈ (runR [.create 0, .protect 0]).pool.fs ∧
+    0 < (runR [.create 0, .protect 0]).pool.refs.length := by decide
 
 end WindVerif.C20
